@@ -157,6 +157,16 @@ CHECKS = {
              "model_quantize(enable_bn_folding) on branched models are recorded bitwise comparisons judged in the "
              "same trace.",
         design="7 C15"),
+    "C12": dict(
+        spec="ModelGraph.tla + MC_ModelGraph + Trace_ModelGraph",
+        text="ModelGraph.tla transcribes model_quantize as a rewriting of model descriptions (lookup precedence, "
+             "per-kind rules, activation_bits); TLC checks on all models of <= 2 layers x all dictionaries (1.7 M "
+             "states) that unselected layers are untouched, a name entry beats the class entry as a whole record, "
+             "biasless layers get no bias quantizer, classes are the Q counterparts; real model_quantize runs on "
+             "sampled (model, dictionary) pairs incl. 3-layer models are projected (class, quantizers the Q class "
+             "builds from the strings, activation, shapes, weights, source model and caller dictionaries) and TLC "
+             "judges result = DesignQuantize(dict, model) plus the frame flags.",
+        design="7 C12"),
 }
 
 
